@@ -491,6 +491,47 @@ func cmdCheck(args []string) int {
 				}
 			}
 		}
+		// state that outlives an evaluation: package-level variables that are assigned after initialisation, hold a
+		// container that is written after initialisation, or are concurrent containers of package sync. Each must be
+		// declared (process_state); a new cache or memo table at package level is reported here.
+		nObl++
+		var undeclaredState []string
+		for _, pk := range []string{"evaluator", "object", "props", "runscript"} {
+			sp2 := w.SSAPkgs[pk]
+			if sp2 == nil {
+				continue
+			}
+			for _, mn := range sortedKeys(sp2.Members) {
+				g, ok := sp2.Members[mn].(*ssa.Global)
+				if !ok || strings.HasPrefix(mn, "init$") || mn == "_" {
+					continue
+				}
+				why := ""
+				elem := g.Type().(*types.Pointer).Elem()
+				if !mods.IsFinal(g) {
+					why = "assigned after package initialisation"
+				} else if mods.globalContentWritten(g) {
+					why = "its container is written after package initialisation"
+				} else if n, ok := elem.(*types.Named); ok && n.Obj().Pkg() != nil && (n.Obj().Pkg().Path() == "sync" || n.Obj().Pkg().Path() == "sync/atomic") && n.Obj().Name() != "Mutex" && n.Obj().Name() != "RWMutex" && n.Obj().Name() != "Once" {
+					why = "concurrent container " + n.Obj().Pkg().Path() + "." + n.Obj().Name()
+				}
+				if why != "" && !sp.ProcessState[pk+"."+g.Name()] {
+					undeclaredState = append(undeclaredState, pk+"."+g.Name()+" ("+why+")")
+				}
+			}
+		}
+		if len(undeclaredState) == 0 {
+			nDis++
+		}
+		for _, gname := range undeclaredState {
+			nViol++
+			rp := filepath.Join(replayDir, "STATE.undeclared-process-state."+sanitizeFile(gname)+".json")
+			b, _ := json.MarshalIndent(map[string]string{"property": id, "obligation": "STATE.undeclared-process-state " + gname,
+				"detail": "package-level variable that can change after initialisation: state that an earlier evaluation can leave behind for a later one; not declared under process_state"}, "", " ")
+			os.WriteFile(rp, b, 0o644)
+			fmt.Printf("  failed obligation STATE.undeclared-process-state %s :: package-level state that outlives an evaluation\n", gname)
+			violLines = append(violLines, fmt.Sprintf("VIOLATION property=%s replay=%s no-failing-input-found", id, rp))
+		}
 		if len(undeclared) == 0 {
 			nDis++
 		}
